@@ -178,11 +178,17 @@ Definition x_sel1 (name : string) (v : selv) (drop : bool) (a : xarr) : res xarr
       if negb (dindexed d) then Err "Unsupported" else
       match v with
       | SOne c => match index_of c (dcoords d) with
-                  | Some p => Ok (x_take_one k p name drop a)
+                  | Some p =>
+                      (* a label that occurs again keeps the dimension (all matches): not modelled *)
+                      if existsb (cv_eqb c) (skipn (S p) (dcoords d)) then Err "Unsupported"
+                      else Ok (x_take_one k p name drop a)
                   | None => Err "KeyError" end
-      | SMany cs => match all_some (map (fun c => index_of c (dcoords d)) cs) with
-                    | Some ps => Ok (x_take_many k ps a)
-                    | None => Err "KeyError" end
+      | SMany cs =>
+          (* pandas get_indexer: a list of labels needs a uniquely valued index *)
+          if negb (nodupb (dcoords d)) then Err "InvalidIndexError" else
+          match all_some (map (fun c => index_of c (dcoords d)) cs) with
+          | Some ps => Ok (x_take_many k ps a)
+          | None => Err "KeyError" end
       end
   end.
 
